@@ -354,6 +354,13 @@ def run_query(ctx, q, tag="", extra_defs=(), mut_overlay=None, want_replay=True,
         if results is None:
             res["error"] = "no verdict (rc=%s): %s %s" % (rc, "; ".join(errors)[-600:], (err or "")[-400:])
             return res
+        # a per-assertion status other than SUCCESS/FAILURE (CBMC prints ERROR/UNKNOWN when the
+        # SAT solver ran out of memory) is "no verdict", never a pass
+        undecided = [r for r in results if r.get("status") not in ("SUCCESS", "FAILURE")]
+        if undecided:
+            res["error"] = "no verdict: %d assertion(s) with status %s (solver out of memory?) %s" % (
+                len(undecided), undecided[0].get("status"), "; ".join(errors)[-300:])
+            return res
         prop_fail, wit_fail, wit_ok, unwind_fail, check_fail, n_prop = classify(results)
         res["assertions"] = n_prop
         res["witnesses"] = len(wit_fail) + len(wit_ok)
